@@ -187,12 +187,14 @@ func (w *saoWorld) storeNew(mut string) {
 	case "sponsor":
 		p.PaymentDid = w.sponsor.did
 		signer = w.sponsor.acct
+	case "sponsor-as-provider":
+		p.PaymentDid = w.sponsor.did // submitted by a stranger who names the sponsor's payment address as provider
+		signer = w.attacker
+		msgProvider = w.sponsor.acct.Bech()
 	case "sponsor-foreign":
 		p.PaymentDid = w.sponsor.did // submitted by someone who is not the sponsor
 	case "owner-direct":
-		if o.sid {
-			signer = o.acct // account bound to the sid owner: order stays pending until Ready
-		}
+		signer = o.acct // an account bound to the owner (sid binding, or the key DID's payment address): the order stays pending until Ready
 	case "neg-timeout":
 		p.Timeout = -1
 	case "zero-timeout":
@@ -749,7 +751,7 @@ func runSaoHistory(r *Recorder, rng *rand.Rand, accts []*Account, nOps int, long
 			x := rng.Intn(100)
 			switch {
 			case x < 18 || len(w.models) == 0:
-				w.storeNew(weighted(rng, []string{"sponsor", "sponsor-foreign", "owner-direct", "owner-direct", "neg-timeout", "zero-timeout", "replica0", "replica-neg",
+				w.storeNew(weighted(rng, []string{"sponsor", "sponsor-foreign", "sponsor-as-provider", "owner-direct", "owner-direct", "owner-direct", "owner-direct", "neg-timeout", "zero-timeout", "replica0", "replica-neg",
 					"replica-many", "short", "bad-cid", "huge-size", "zero-size", "bad-dataid", "wrong-key", "wrong-did", "foreign-version", "stranger-gateway",
 					"claimed-provider", "tampered", "unknown-gateway"}, 35))
 			case x < 45:
